@@ -2,133 +2,89 @@ import GdcVerif.Model.JpegMarkers
 import GdcVerif.Model.JlsHeader
 import GdcVerif.Model.J2kHeader
 /-! Proofs behind the parser parts of `Props/C08.lean` / `Props/C09.lean`. -/
-
 namespace JM
+open PC
 
-/-! ### HuffmanTable.Build -/
+theorem segTurn_done {σ : Type} {st st' : σ} {rest : Bytes} {fail : σ → Nat → σ} {h : Bytes → Nat → H σ} {o : Res}
+    (hs : segTurn st rest fail h = .done st' o) :
+    o = .err ∨ ∃ pl u, h pl u = .stop st' o := by
+  unfold segTurn at hs
+  split at hs
+  · injection hs with _ h2; exact Or.inl h2.symm
+  · split at hs
+    · cases hs
+    · injection hs with h1 h2; subst h1; subst h2
+      exact Or.inr ⟨_, _, by assumption⟩
 
-/-- codes of one length: with `p + n ≤ nvalues` the `Values[p]` access is in range, and the
-    lookup index is in range exactly when the LAST code of the group fits -/
-theorem buildCodes_ok (nvalues l n p : Nat) (hv : p + n ≤ nvalues)
-    (hk : n = 0 ∨ (p + n) * 2 ^ (7 - l) ≤ 256) : buildCodes nvalues l n p = .ok (p + n) := by
+theorem segTurn_more {σ : Type} {st st' : σ} {rest r : Bytes} {fail : σ → Nat → σ} {h : Bytes → Nat → H σ}
+    (hs : segTurn st rest fail h = .more st' r) : ∃ pl u, h pl u = .cont st' := by
+  unfold segTurn at hs
+  split at hs
+  · cases hs
+  · split at hs
+    · injection hs with h1 _; subst h1
+      exact ⟨_, _, by assumption⟩
+    · cases hs
+
+/-! Build -/
+theorem buildCodes_total (nv l n p : Nat) (s : Site) : buildCodes nv l n p ≠ .error (.panic s) := by
   induction n generalizing p with
   | zero => simp [buildCodes]
   | succ n ih =>
     unfold buildCodes
-    have hk' : (p + (n + 1)) * 2 ^ (7 - l) ≤ 256 := by
-      rcases hk with h | h
-      · cases h
-      · exact h
-    have h1 : ¬ (p + 1) * 2 ^ (7 - l) > 256 := by
-      have : (p + 1) * 2 ^ (7 - l) ≤ (p + (n + 1)) * 2 ^ (7 - l) :=
-        Nat.mul_le_mul_right _ (by omega)
-      omega
-    have h2 : ¬ p ≥ nvalues := by omega
-    rw [if_neg h1, if_neg h2]
-    have := ih (p + 1) (by omega) (by
-      cases n with
-      | zero => exact Or.inl rfl
-      | succ m => right; have : p + 1 + (m + 1) = p + (m + 1 + 1) := by omega
-                  rw [this]; exact hk')
-    rw [this]
-    congr 1
-    omega
+    generalize (p + 1) * 2 ^ (7 - l) = x
+    by_cases hg : x > 256 ∨ p ≥ nv
+    · rw [if_pos hg]; simp
+    · rw [if_neg hg]
+      have h1 : ¬ x - 1 ≥ 256 := by omega
+      have h2 : ¬ p ≥ nv := by omega
+      rw [if_neg h1, if_neg h2]
+      exact ih _
 
-/-- `Values[p]` is never out of range when `nvalues` is at least the number of codes visited -/
-theorem buildCodes_no_values_panic (nvalues l n p : Nat) (hv : p + n ≤ nvalues) :
-    buildCodes nvalues l n p ≠ .panic .huffValues := by
-  induction n generalizing p with
-  | zero => simp [buildCodes]
-  | succ n ih =>
-    unfold buildCodes
-    split
-    · simp
-    · have h2 : ¬ p ≥ nvalues := by omega
-      rw [if_neg h2]
-      exact ih (p + 1) (by omega)
-
-theorem buildCodes_result (nvalues l n p p' : Nat) (h : buildCodes nvalues l n p = .ok p') : p' = p + n := by
-  induction n generalizing p with
-  | zero => simp [buildCodes] at h; omega
-  | succ n ih =>
-    unfold buildCodes at h
-    split at h
-    · cases h
-    · split at h
-      · cases h
-      · have := ih (p + 1) h; omega
-
-def sumList (xs : List Nat) : Nat := xs.foldl (· + ·) 0
-
-theorem foldl_add (xs : List Nat) (a : Nat) : xs.foldl (· + ·) a = a + xs.foldl (· + ·) 0 := by
-  induction xs generalizing a with
-  | nil => simp
-  | cons x xs ih => simp only [List.foldl_cons, Nat.zero_add]; rw [ih (a + x), ih x]; omega
-
-theorem buildLens_no_values_panic (nvalues : Nat) (bits : List Nat) (l p : Nat)
-    (hv : p + sumList bits ≤ nvalues) : buildLens nvalues bits l p ≠ .panic .huffValues := by
+theorem buildLens_total (nv : Nat) (bits : List Nat) (l p : Nat) (s : Site) :
+    buildLens nv bits l p ≠ .error (.panic s) := by
   induction bits generalizing l p with
   | nil => simp [buildLens]
   | cons n bits ih =>
-    have hs : sumList (n :: bits) = n + sumList bits := by
-      unfold sumList; simp only [List.foldl_cons, Nat.zero_add]; exact foldl_add bits n
     unfold buildLens
     split
     · simp
-    · have hc := buildCodes_no_values_panic nvalues l n p (by omega)
-      cases hb : buildCodes nvalues l n p with
-      | ok p' =>
-        simp only
-        have := buildCodes_result _ _ _ _ _ hb
-        exact ih (l + 1) p' (by omega)
-      | err => simp
-      | panic s =>
-        simp only
-        intro h; injection h with h; subst h; exact hc hb
-      | scan => simp
+    · have hc := buildCodes_total nv l n p s
+      cases hb : buildCodes nv l n p with
+      | ok p' => simp only; exact ih _ _
+      | error e => simp only; intro h; injection h with h; subst h; exact hc hb
 
-/-- the prefix-sum (Kraft-style) condition under which Build's `lookupTable[code+j]` stays in range:
-    after the codes of length `l+1` the running code count `p` satisfies `p · 2^(7−l) ≤ 256` -/
-def kraftOK : List Nat → Nat → Nat → Bool
-  | [], _, _ => true
-  | n :: bits, l, p => l ≥ 8 || ((n = 0 || (p + n) * 2 ^ (7 - l) ≤ 256) && kraftOK bits (l + 1) (p + n))
-
-theorem buildLens_ok_of_kraft (nvalues : Nat) (bits : List Nat) (l p : Nat)
-    (hv : p + sumList bits ≤ nvalues) (hk : kraftOK bits l p = true) :
-    buildLens nvalues bits l p = .ok () := by
-  induction bits generalizing l p with
-  | nil => simp [buildLens]
-  | cons n bits ih =>
-    have hs : sumList (n :: bits) = n + sumList bits := by
-      unfold sumList; simp only [List.foldl_cons, Nat.zero_add]; exact foldl_add bits n
-    unfold buildLens
-    split
-    · rfl
-    · rename_i hl
-      unfold kraftOK at hk
-      simp only [Bool.or_eq_true, Bool.and_eq_true, decide_eq_true_eq] at hk
-      rcases hk with hk | ⟨hk1, hk2⟩
-      · exact absurd hk hl
-      · rw [buildCodes_ok nvalues l n p (by omega) hk1]
-        exact ih (l + 1) (p + n) (by omega) hk2
-
-/-! ### SV1 -/
-
-theorem sv1ScanStart_total (st : Sv1) (h : ∀ c ∈ st.comps, c.2 < 4) (s : Site) :
-    sv1ScanStart st ≠ .panic s := by
-  unfold sv1ScanStart
+theorem dhtTable_total (maxTh : Nat) (data : Bytes) (s : Site) : dhtTable maxTh data ≠ .error (.panic s) := by
+  unfold dhtTable
   split
   · simp
-  · split
-    · simp
-    · rename_i id sel rest hc
-      have : sel < 4 := by
-        have := h (id, sel) (by rw [hc]; simp)
-        exact this
-      have hn : ¬ sel ≥ 4 := by omega
-      rw [if_neg hn]
-      split <;> simp
+  · simp only
+    repeat' split
+    all_goals first
+      | (simp; done)
+      | (rename_i e he
+         intro h; injection h with h; subst h
+         exact buildLens_total _ _ 0 0 s he)
 
+theorem parseDHT_total (maxTh : Nat) (data : Bytes) (dc ac : List Bool) (s : Site) :
+    parseDHT maxTh data dc ac ≠ .error (.panic s) := by
+  induction hn : data.length using Nat.strongRecOn generalizing data dc ac with
+  | _ n ih =>
+    unfold parseDHT
+    split
+    · simp
+    · rename_i b tl
+      split
+      · rename_i tc th rest hd
+        have hlt := dhtTable_lt hd
+        split
+        · exact ih rest.length (by omega) rest _ _ rfl
+        · exact ih rest.length (by omega) rest _ _ rfl
+      · rename_i e hd
+        intro h; injection h with h; subst h
+        exact dhtTable_total _ _ s hd
+
+/-! SV1 -/
 def Sel4 (cs : List (Nat × Nat)) : Prop := ∀ c ∈ cs, c.2 < 4
 
 theorem sv1Comps_sel (w h n : Nat) (data : Bytes) (acc : List (Nat × Nat)) (al : List Nat)
@@ -140,7 +96,7 @@ theorem sv1Comps_sel (w h n : Nat) (data : Bytes) (acc : List (Nat × Nat)) (al 
     match data with
     | id :: hv :: tq :: rest =>
       unfold sv1Comps at h
-      simp only at h
+      try simp only at h
       split at h
       · cases h
       · apply ih rest (acc ++ [(id, 0)]) _ _ h
@@ -156,24 +112,12 @@ theorem sv1Comps_sel (w h n : Nat) (data : Bytes) (acc : List (Nat × Nat)) (al 
 theorem sv1SOF3_sel (st st' : Sv1) (data : Bytes) (al : List Nat) (h : sv1SOF3 st data = (some st', al)) :
     Sel4 st'.comps := by
   unfold sv1SOF3 at h
-  simp only at h
-  split at h
-  · cases h
-  · split at h
-    · cases h
-    · split at h
-      · cases h
-      · split at h
-        · cases h
-        · split at h
-          · cases h
-          · split at h
-            · cases h
-            · rename_i cs al2 hc
-              injection h with h1 h2
-              injection h1 with h1
-              subst h1
-              exact sv1Comps_sel _ _ _ _ _ _ _ _ (by intro c hc; cases hc) hc
+  try simp only at h
+  repeat' split at h
+  all_goals first
+    | (cases h; done)
+    | (cases h
+       exact sv1Comps_sel _ _ _ _ [] _ _ _ (by intro c hc; cases hc) ‹sv1Comps _ _ _ _ _ _ = _›)
 
 theorem sv1Selectors_sel (n : Nat) (data : Bytes) (comps cs : List (Nat × Nat)) (ha : Sel4 comps)
     (h : sv1Selectors n data comps = some cs) : Sel4 cs := by
@@ -187,8 +131,7 @@ theorem sv1Selectors_sel (n : Nat) (data : Bytes) (comps cs : List (Nat × Nat))
       · cases h
       · split at h
         · cases h
-        · rename_i k hk htd
-          apply ih rest _ _ h
+        · apply ih rest _ _ h
           intro x hx
           rcases List.mem_or_eq_of_mem_set hx with hx | hx
           · exact ha x hx
@@ -210,128 +153,824 @@ theorem sv1SOS_sel (st st' : Sv1) (data : Bytes) (ha : Sel4 st.comps) (h : sv1SO
         · cases h
         · injection h with h; subst h; exact sv1Selectors_sel _ _ _ _ ha hs
 
-theorem buildCodes_site (nv l n p : Nat) : buildCodes nv l n p ≠ .panic .sv1TableSel := by
-  induction n generalizing p with
-  | zero => simp [buildCodes]
-  | succ n ih =>
-    unfold buildCodes
-    split
+theorem sv1ScanStart_total (st : Sv1) (h : Sel4 st.comps) (s : Site) : sv1ScanStart st ≠ .panic s := by
+  unfold sv1ScanStart
+  split
+  · simp
+  · split
     · simp
-    · split
-      · simp
-      · exact ih _
+    · rename_i id sel rest hc
+      have : sel < 4 := h (id, sel) (by rw [hc]; simp)
+      have hn : ¬ sel ≥ 4 := by omega
+      rw [if_neg hn]
+      split <;> simp
 
-theorem buildLens_site (nv : Nat) (bits : List Nat) (l p : Nat) : buildLens nv bits l p ≠ .panic .sv1TableSel := by
-  induction bits generalizing l p with
-  | nil => simp [buildLens]
-  | cons n bits ih =>
-    unfold buildLens
-    split
+theorem sv1Step_more_inv {st st' : Sv1} {bs r : Bytes} (hi : Sel4 st.comps)
+    (h : sv1Step st bs = .more st' r) : Sel4 st'.comps := by
+  unfold sv1Step at h
+  split at h
+  · cases h
+  · try simp only at h
+    split at h
+    · obtain ⟨pl, u, hh⟩ := segTurn_more h
+      try simp only at hh
+      split at hh
+      · cases hh
+      · rename_i st2 al hs
+        injection hh with hh; subst hh
+        show Sel4 st2.comps; exact sv1SOF3_sel st st2 _ _ hs
+    · split at h
+      · obtain ⟨pl, u, hh⟩ := segTurn_more h
+        try simp only at hh
+        split at hh
+        · injection hh with hh; subst hh; exact hi
+        · cases hh
+      · split at h
+        · obtain ⟨pl, u, hh⟩ := segTurn_more h
+          try simp only at hh
+          repeat' split at hh
+          all_goals cases hh
+        · split at h
+          · cases h
+          · split at h
+            · obtain ⟨pl, u, hh⟩ := segTurn_more h
+              try simp only at hh
+              injection hh with hh; subst hh; exact hi
+            · injection h with h1 _; subst h1; exact hi
+
+theorem sv1Step_done_total {st st' : Sv1} {bs : Bytes} {o : Res} (hi : Sel4 st.comps)
+    (h : sv1Step st bs = .done st' o) (s : Site) : o ≠ .panic s := by
+  unfold sv1Step at h
+  split at h
+  · injection h with _ h2; subst h2; simp
+  · try simp only at h
+    split at h
+    · rcases segTurn_done h with he | ⟨pl, u, hh⟩
+      · subst he; simp
+      · try simp only at hh
+        split at hh
+        · injection hh with _ h2; subst h2; simp
+        · cases hh
+    · split at h
+      · rcases segTurn_done h with he | ⟨pl, u, hh⟩
+        · subst he; simp
+        · try simp only at hh
+          split at hh
+          · cases hh
+          · rename_i e hp
+            injection hh with _ h2; subst h2
+            intro hc; subst hc
+            exact parseDHT_total _ _ _ _ s hp
+      · split at h
+        · rcases segTurn_done h with he | ⟨pl, u, hh⟩
+          · subst he; simp
+          · try simp only at hh
+            split at hh
+            · injection hh with _ h2; subst h2; simp
+            · rename_i st2 hs
+              have hsel := sv1SOS_sel _ _ _ hi hs
+              have hsc := sv1ScanStart_total st2 hsel s
+              split at hh
+              · injection hh with _ h2; subst h2; simp
+              · rename_i r hr
+                injection hh with _ h2; subst h2
+                exact hsc
+        · split at h
+          · injection h with _ h2; subst h2; simp
+          · split at h
+            · rcases segTurn_done h with he | ⟨pl, u, hh⟩
+              · subst he; simp
+              · cases hh
+            · cases h
+
+/-- FULL: `lossless14sv1.Decode`, up to the first Huffman symbol, has no panic outcome -/
+theorem sv1Decode_total (bs : Bytes) (s : Site) : (sv1Decode bs).2 ≠ .panic s := by
+  unfold sv1Decode
+  split
+  · simp
+  · split
     · simp
-    · have hc := buildCodes_site nv l n p
-      cases hb : buildCodes nv l n p with
-      | ok p' => simp only; exact ih _ _
-      | err => simp
-      | panic s => simp only; intro h; injection h with h; subst h; exact hc hb
-      | scan => simp
+    · exact run_inv sv1Step sv1Step_lt (fun st _ => Sel4 st.comps) (fun p => p.2 ≠ .panic s)
+        (fun st bs st' r hi h => sv1Step_more_inv hi h)
+        (fun st bs st' o hi h => sv1Step_done_total hi h s) {} _ (by intro c hc; cases hc)
+end JM
 
-theorem dhtTable_site (maxTh : Nat) (data : Bytes) : dhtTable maxTh data ≠ .panic .sv1TableSel := by
-  unfold dhtTable
+namespace JM
+open PC
+
+/-! jpeg/lossless -/
+def JllInv (st : Jll) : Prop := st.comps ≤ 3 ∧ st.sels.length = 3 ∧ ∀ x ∈ st.sels, x < 4
+
+theorem jllSOF3_inv {st st' : Jll} {data : Bytes} (hi : JllInv st) (h : jllSOF3 st data = some st') : JllInv st' := by
+  unfold jllSOF3 at h
+  simp only at h
+  repeat' split at h
+  all_goals first
+    | (cases h; done)
+    | (injection h with h; subst h
+       refine ⟨?_, hi.2.1, hi.2.2⟩
+       show data.getD 5 0 ≤ 3
+       omega)
+
+theorem jllSelectors_ok (data : Bytes) (ncomp : Nat) (hn : ncomp ≤ 3) (hl : 1 + ncomp * 2 + 3 ≤ data.length)
+    (k : Nat) (hk : k ≤ ncomp) (sels : List Nat) (h3 : sels.length = 3) (h4 : ∀ x ∈ sels, x < 4) :
+    (∀ s, jllSelectors data ncomp k sels ≠ .error (.panic s)) ∧
+    (∀ r, jllSelectors data ncomp k sels = .ok r → r.length = 3 ∧ ∀ x ∈ r, x < 4) := by
+  induction k generalizing sels with
+  | zero =>
+    constructor
+    · intro s; simp [jllSelectors]
+    · intro r hr; simp [jllSelectors] at hr; subst hr; exact ⟨h3, h4⟩
+  | succ k ih =>
+    unfold jllSelectors
+    simp only
+    have h1 : ¬ 2 + (ncomp - (k + 1)) * 2 ≥ data.length := by omega
+    have h2 : ¬ ncomp - (k + 1) ≥ 3 := by omega
+    rw [if_neg h1]
+    by_cases hs : data.getD (2 + (ncomp - (k + 1)) * 2) 0 / 16 ≥ 4
+    · rw [if_pos hs]; constructor
+      · intro s; simp
+      · intro r hr; cases hr
+    · rw [if_neg hs, if_neg h2]
+      apply ih (by omega)
+      · simp [h3]
+      · intro x hx
+        rcases List.mem_or_eq_of_mem_set hx with hx | hx
+        · exact h4 x hx
+        · subst hx; omega
+
+theorem jllSOS_spec {st : Jll} {data : Bytes} (hi : JllInv st) :
+    (∀ s, jllSOS st data ≠ .error (.panic s)) ∧ (∀ st', jllSOS st data = .ok st' → JllInv st') := by
+  unfold jllSOS
+  by_cases h1 : data.length < 1 + st.comps * 2 + 3
+  · rw [if_pos h1]; exact ⟨by intro s; simp, by intro st' h; cases h⟩
+  rw [if_neg h1]
+  by_cases h2 : data.getD 0 0 ≠ st.comps
+  · rw [if_pos h2]; exact ⟨by intro s; simp, by intro st' h; cases h⟩
+  rw [if_neg h2]
+  simp only
+  by_cases h3 : data.getD (1 + st.comps * 2) 0 < 1 ∨ data.getD (1 + st.comps * 2) 0 > 7
+  · rw [if_pos h3]; exact ⟨by intro s; simp, by intro st' h; cases h⟩
+  rw [if_neg h3]
+  have hs := jllSelectors_ok data st.comps hi.1 (by omega) st.comps (Nat.le_refl _) st.sels hi.2.1 hi.2.2
+  cases hj : jllSelectors data st.comps st.comps st.sels with
+  | ok r =>
+    simp only
+    refine ⟨by intro s; simp, ?_⟩
+    intro st' h; injection h with h; subst h
+    exact ⟨hi.1, hs.2 r hj⟩
+  | error e =>
+    simp only
+    refine ⟨?_, by intro st' h; cases h⟩
+    intro s h; injection h with h; subst h; exact hs.1 s hj
+
+theorem jllScanStart_total (st : Jll) (hi : JllInv st) (s : Site) : jllScanStart st ≠ .panic s := by
+  unfold jllScanStart
   split
   · simp
   · simp only
+    have : st.sels.getD 0 0 < 4 := by
+      obtain ⟨_, h3, h4⟩ := hi
+      match hs : st.sels with
+      | [] => rw [hs] at h3; simp at h3
+      | x :: _ => simp; exact h4 x (by rw [hs]; simp)
+    have hn : ¬ st.sels.getD 0 0 ≥ 4 := by omega
+    rw [if_neg hn]
+    split <;> simp
+
+theorem jllStep_more_inv {st st' : Jll} {bs r : Bytes} (hi : JllInv st)
+    (h : jllStep st bs = .more st' r) : JllInv st' := by
+  unfold jllStep at h
+  split at h
+  · cases h
+  · try simp only at h
+    split at h
+    · obtain ⟨pl, u, hh⟩ := segTurn_more h
+      try simp only at hh
+      split at hh
+      · cases hh
+      · rename_i st2 hs
+        injection hh with hh; subst hh
+        exact (jllSOF3_inv hi hs : JllInv st2)
+    · split at h
+      · obtain ⟨pl, u, hh⟩ := segTurn_more h
+        try simp only at hh
+        split at hh
+        · injection hh with hh; subst hh; exact hi
+        · cases hh
+      · split at h
+        · obtain ⟨pl, u, hh⟩ := segTurn_more h
+          try simp only at hh
+          repeat' split at hh
+          all_goals cases hh
+        · split at h
+          · cases h
+          · split at h
+            · obtain ⟨pl, u, hh⟩ := segTurn_more h
+              try simp only at hh
+              injection hh with hh; subst hh; exact hi
+            · injection h with h1 _; subst h1; exact hi
+
+theorem jllStep_done_total {st st' : Jll} {bs : Bytes} {o : Res} (hi : JllInv st)
+    (h : jllStep st bs = .done st' o) (s : Site) : o ≠ .panic s := by
+  unfold jllStep at h
+  split at h
+  · injection h with _ h2; subst h2; simp
+  · try simp only at h
+    split at h
+    · rcases segTurn_done h with he | ⟨pl, u, hh⟩
+      · subst he; simp
+      · try simp only at hh
+        split at hh
+        · injection hh with _ h2; subst h2; simp
+        · cases hh
+    · split at h
+      · rcases segTurn_done h with he | ⟨pl, u, hh⟩
+        · subst he; simp
+        · try simp only at hh
+          split at hh
+          · cases hh
+          · rename_i e hp
+            injection hh with _ h2; subst h2
+            intro hc; subst hc
+            exact parseDHT_total _ _ _ _ s hp
+      · split at h
+        · rcases segTurn_done h with he | ⟨pl, u, hh⟩
+          · subst he; simp
+          · try simp only at hh
+            have hsp := @jllSOS_spec st pl hi
+            split at hh
+            · rename_i e he
+              injection hh with _ h2; subst h2
+              intro hc; subst hc; exact hsp.1 s he
+            · rename_i st2 hs
+              have hsc := jllScanStart_total st2 (hsp.2 st2 hs) s
+              split at hh
+              · injection hh with _ h2; subst h2; simp
+              · injection hh with _ h2; subst h2; exact hsc
+        · split at h
+          · injection h with _ h2; subst h2; simp
+          · split at h
+            · rcases segTurn_done h with he | ⟨pl, u, hh⟩
+              · subst he; simp
+              · cases hh
+            · cases h
+
+/-- FULL: `jpeg/lossless.Decode`, up to the first Huffman symbol, has no panic outcome -/
+theorem jllDecode_total (bs : Bytes) (s : Site) : (jllDecode bs).2 ≠ .panic s := by
+  unfold jllDecode
+  split
+  · simp
+  · split
+    · simp
+    · exact run_inv jllStep jllStep_lt (fun st _ => JllInv st) (fun p => p.2 ≠ .panic s)
+        (fun st bs st' r hi h => jllStep_more_inv hi h)
+        (fun st bs st' o hi h => jllStep_done_total hi h s) {} _
+        ⟨by decide, by decide, by decide⟩
+end JM
+
+namespace JM
+open PC
+
+/-! baseline -/
+def BlInv (st : Bl) : Prop := ∀ c ∈ st.comps, c.td < 4
+
+theorem foldl_max_ge (f : BlComp → Nat) (cs : List BlComp) (init : Nat) :
+    init ≤ cs.foldl (fun m c => max m (f c)) init := by
+  induction cs generalizing init with
+  | nil => simp
+  | cons c cs ih => simp only [List.foldl_cons]; have := ih (max init (f c)); omega
+
+theorem maxOf_pos (f : BlComp → Nat) (cs : List BlComp) : 1 ≤ maxOf f cs := foldl_max_ge f cs 1
+
+theorem divCeil_some (a b : Nat) (hb : b ≠ 0) : divCeil a b = some ((a + b - 1) / b) := by
+  unfold divCeil; rw [if_neg hb]
+
+theorem blCompAllocs_total (w h maxH maxV : Nat) (hH : 1 ≤ maxH) (hV : 1 ≤ maxV) (cs : List BlComp) (s : Site) :
+    blCompAllocs w h maxH maxV cs ≠ .error (.panic s) := by
+  induction cs with
+  | nil => simp [blCompAllocs]
+  | cons c cs ih =>
+    unfold blCompAllocs
+    rw [divCeil_some _ _ (by omega), divCeil_some _ _ (by omega)]
+    simp only
+    cases hb : blCompAllocs w h maxH maxV cs with
+    | ok al => simp
+    | error e => simp only; intro hc; injection hc with hc; subst hc; exact ih hb
+
+theorem blComps_td (n : Nat) (data : Bytes) (acc cs : List BlComp) (ha : ∀ c ∈ acc, c.td < 4)
+    (h : blComps n data acc = some cs) : ∀ c ∈ cs, c.td < 4 := by
+  induction n generalizing data acc with
+  | zero => simp [blComps] at h; subst h; exact ha
+  | succ n ih =>
+    match data with
+    | id :: hv :: tq :: rest =>
+      unfold blComps at h
+      simp only at h
+      split at h
+      · cases h
+      · apply ih rest _ _ h
+        intro c hc
+        rw [List.mem_append] at hc
+        rcases hc with hc | hc
+        · exact ha c hc
+        · simp at hc; subst hc; simp
+    | [] => simp [blComps] at h
+    | [_] => simp [blComps] at h
+    | [_, _] => simp [blComps] at h
+
+theorem blSOF_total (st : Bl) (data : Bytes) (s : Site) : blSOF st data ≠ .error (.panic s) := by
+  unfold blSOF
+  simp only
+  repeat' split
+  all_goals first
+    | (simp; done)
+    | (exfalso
+       rename_i hd
+       rw [divCeil_some _ _ (by have := maxOf_pos (·.h) ‹List BlComp›; omega)] at hd
+       cases hd)
+    | (exfalso
+       rename_i hd
+       rw [divCeil_some _ _ (by have := maxOf_pos (·.v) ‹List BlComp›; omega)] at hd
+       cases hd)
+    | (intro h; injection h with h; subst h
+       exact blCompAllocs_total _ _ _ _ (maxOf_pos _ _) (maxOf_pos _ _) _ s ‹blCompAllocs _ _ _ _ _ = _›)
+
+theorem blSOF_inv {st st' : Bl} {data : Bytes} {al : List Nat} (h : blSOF st data = .ok (st', al)) : BlInv st' := by
+  unfold blSOF at h
+  simp only at h
+  repeat' split at h
+  all_goals first
+    | (cases h; done)
+    | (cases h
+       intro c hc
+       exact blComps_td _ _ [] _ (by intro c hc; cases hc) ‹blComps _ _ _ = _› c hc)
+
+theorem blDQT_total (data : Bytes) (s : Site) : blDQT data ≠ .panic s := by
+  induction hn : data.length using Nat.strongRecOn generalizing data with
+  | _ n ih =>
+    unfold blDQT
+    split
+    · simp
+    · rename_i b rest
+      simp only
+      by_cases h1 : b % 16 > 3
+      · rw [if_pos h1]; simp
+      · rw [if_neg h1]
+        have h2 : ¬ b % 16 ≥ 4 := by omega
+        rw [if_neg h2]
+        generalize hnn : (if b / 16 = 0 then 64 else 128) = nn
+        have hpos : nn ≥ 64 := by subst hnn; split <;> omega
+        by_cases h3 : rest.length < nn
+        · rw [if_pos h3]; simp
+        · rw [if_neg h3]
+          exact ih (rest.drop nn).length (by subst hn; simp [List.length_drop]; omega) _ rfl
+
+theorem blSelectors_td (n : Nat) (data : Bytes) (comps cs : List BlComp) (ha : ∀ c ∈ comps, c.td < 4)
+    (h : blSelectors n data comps = some cs) : ∀ c ∈ cs, c.td < 4 := by
+  induction n generalizing data comps with
+  | zero => simp [blSelectors] at h; subst h; exact ha
+  | succ n ih =>
+    match data with
+    | c :: td :: rest =>
+      unfold blSelectors at h
+      split at h
+      · split at h
+        · cases h
+        · apply ih rest _ _ h
+          intro x hx
+          rcases List.mem_or_eq_of_mem_set hx with hx | hx
+          · exact ha x hx
+          · subst hx; simp; omega
+      · cases h
+    | [] => simp [blSelectors] at h
+    | [_] => simp [blSelectors] at h
+
+theorem blSOS_inv {st st' : Bl} {data : Bytes} (hi : BlInv st) (h : blSOS st data = some st') : BlInv st' := by
+  unfold blSOS at h
+  split at h
+  · cases h
+  · split at h
+    · cases h
+    · split at h
+      · cases h
+      · injection h with h; subst h
+        exact blSelectors_td _ _ _ _ hi ‹blSelectors _ _ _ = _›
+
+theorem blScanStart_total (st : Bl) (hi : BlInv st) (s : Site) : blScanStart st ≠ .panic s := by
+  unfold blScanStart
+  split
+  · simp
+  · rename_i hm
+    rw [divCeil_some _ _ (by omega), divCeil_some _ _ (by omega)]
+    simp only
     split
     · simp
     · split
       · simp
-      · split
-        · simp
-        · have hb := buildLens_site ((List.take 16 ‹Bytes›).foldl (· + ·) 0) (List.take 16 ‹Bytes›) 0 0
-          unfold build
-          split
-          · simp
-          · simp
-          · rename_i s hs
-            intro h; injection h with h; subst h
-            exact hb hs
-          · simp
+      · rename_i c rest hc
+        have : c.td < 4 := hi c (by rw [hc]; simp)
+        have hn : ¬ c.td ≥ 4 := by omega
+        rw [if_neg hn]
+        split <;> simp
 
+theorem blStep_more_inv {st st' : Bl} {bs r : Bytes} (hi : BlInv st)
+    (h : blStep st bs = .more st' r) : BlInv st' := by
+  unfold blStep at h
+  split at h
+  · cases h
+  · try simp only at h
+    split at h
+    · obtain ⟨pl, u, hh⟩ := segTurn_more h
+      try simp only at hh
+      split at hh
+      · rename_i st2 al hs
+        injection hh with hh; subst hh
+        exact (blSOF_inv hs : BlInv st2)
+      · cases hh
+    · split at h
+      · obtain ⟨pl, u, hh⟩ := segTurn_more h
+        try simp only at hh
+        split at hh
+        · injection hh with hh; subst hh; exact hi
+        · cases hh
+      · split at h
+        · obtain ⟨pl, u, hh⟩ := segTurn_more h
+          try simp only at hh
+          split at hh
+          · injection hh with hh; subst hh; exact hi
+          · cases hh
+        · split at h
+          · obtain ⟨pl, u, hh⟩ := segTurn_more h
+            try simp only at hh
+            split at hh
+            · cases hh
+            · injection hh with hh; subst hh; exact hi
+          · split at h
+            · obtain ⟨pl, u, hh⟩ := segTurn_more h
+              try simp only at hh
+              split at hh <;> cases hh
+            · split at h
+              · cases h
+              · split at h
+                · obtain ⟨pl, u, hh⟩ := segTurn_more h
+                  try simp only at hh
+                  injection hh with hh; subst hh; exact hi
+                · injection h with h1 _; subst h1; exact hi
+
+theorem blStep_done_total {st st' : Bl} {bs : Bytes} {o : Res} (hi : BlInv st)
+    (h : blStep st bs = .done st' o) (s : Site) : o ≠ .panic s := by
+  unfold blStep at h
+  split at h
+  · injection h with _ h2; subst h2; simp
+  · try simp only at h
+    split at h
+    · rcases segTurn_done h with he | ⟨pl, u, hh⟩
+      · subst he; simp
+      · try simp only at hh
+        split at hh
+        · cases hh
+        · rename_i e he
+          injection hh with _ h2; subst h2
+          intro hc; subst hc; exact blSOF_total _ _ s he
+    · split at h
+      · rcases segTurn_done h with he | ⟨pl, u, hh⟩
+        · subst he; simp
+        · try simp only at hh
+          split at hh
+          · cases hh
+          · rename_i r hr _
+            injection hh with _ h2; subst h2
+            exact blDQT_total pl s
+      · split at h
+        · rcases segTurn_done h with he | ⟨pl, u, hh⟩
+          · subst he; simp
+          · try simp only at hh
+            split at hh
+            · cases hh
+            · rename_i e hp
+              injection hh with _ h2; subst h2
+              intro hc; subst hc
+              exact parseDHT_total _ _ _ _ s hp
+        · split at h
+          · rcases segTurn_done h with he | ⟨pl, u, hh⟩
+            · subst he; simp
+            · try simp only at hh
+              split at hh
+              · injection hh with _ h2; subst h2; simp
+              · cases hh
+          · split at h
+            · rcases segTurn_done h with he | ⟨pl, u, hh⟩
+              · subst he; simp
+              · try simp only at hh
+                split at hh
+                · injection hh with _ h2; subst h2; simp
+                · rename_i st2 hs
+                  injection hh with _ h2; subst h2
+                  exact blScanStart_total st2 (blSOS_inv hi hs) s
+            · split at h
+              · injection h with _ h2; subst h2; simp
+              · split at h
+                · rcases segTurn_done h with he | ⟨pl, u, hh⟩
+                  · subst he; simp
+                  · cases hh
+                · cases h
+
+/-- FULL: `baseline.Decode`, up to the first Huffman symbol, has no panic outcome -/
+theorem blDecode_total (bs : Bytes) (s : Site) : (blDecode bs).2 ≠ .panic s := by
+  unfold blDecode
+  split
+  · simp
+  · split
+    · simp
+    · exact run_inv blStep blStep_lt (fun st _ => BlInv st) (fun p => p.2 ≠ .panic s)
+        (fun st bs st' r hi h => blStep_more_inv hi h)
+        (fun st bs st' o hi h => blStep_done_total hi h s) {} _ (by intro c hc; cases hc)
 end JM
 
 namespace JlsH
+open PC JM
 
 theorem wrap64_id (x : Int) (h1 : -2 ^ 63 ≤ x) (h2 : x < 2 ^ 63) : wrap64 x = x := by
   unfold wrap64; omega
 
-/-- for precisions below 64 MAXVAL + 1 is not zero -/
-theorem maxValOf_succ_ne_zero (p : Nat) (hp : p < 64) : wrap64 (maxValOf p + 1) ≠ 0 := by
-  have hcases : p ≤ 62 ∨ p = 63 := by omega
-  rcases hcases with h | h
-  · have h2 : (2 : Int) ^ p ≤ 2 ^ 62 := by
-      have : (2 : Nat) ^ p ≤ 2 ^ 62 := Nat.pow_le_pow_right (by omega) h
-      exact_mod_cast this
-    have h3 : (0 : Int) < 2 ^ p := by
-      have : 0 < (2 : Nat) ^ p := Nat.two_pow_pos p
-      exact_mod_cast this
-    have hn : ¬ p ≥ 64 := by omega
-    unfold maxValOf
-    rw [if_neg hn]
-    rw [wrap64_id (2 ^ p) (by omega) (by omega)]
-    rw [wrap64_id (2 ^ p - 1) (by omega) (by omega)]
-    rw [wrap64_id (2 ^ p - 1 + 1) (by omega) (by omega)]
-    omega
-  · subst h; decide
-
-theorem maxValOf_ge (p : Nat) : -1 ≤ maxValOf p := by
-  have hcases : p ≤ 62 ∨ p = 63 ∨ p ≥ 64 := by omega
-  rcases hcases with h | h | h
-  · have h2 : (2 : Int) ^ p ≤ 2 ^ 62 := by
-      have : (2 : Nat) ^ p ≤ 2 ^ 62 := Nat.pow_le_pow_right (by omega) h
-      exact_mod_cast this
-    have h3 : (0 : Int) < 2 ^ p := by
-      have : 0 < (2 : Nat) ^ p := Nat.two_pow_pos p
-      exact_mod_cast this
-    have hn : ¬ p ≥ 64 := by omega
-    unfold maxValOf
-    rw [if_neg hn]
-    rw [wrap64_id (2 ^ p) (by omega) (by omega)]
-    rw [wrap64_id (2 ^ p - 1) (by omega) (by omega)]
-    omega
-  · subst h; decide
-  · unfold maxValOf
-    rw [if_pos h]
-    decide
-
-theorem computeThresholds_some (mv : Int) (h : wrap64 (mv + 1) ≠ 0) (hlo : -1 ≤ mv) :
-    (computeThresholds mv 0).isSome := by
-  unfold computeThresholds
-  simp only
+/-- the divisions of computeThresholds are safe for every non-negative MAXVAL -/
+theorem thresholdsDivOk_of_nonneg (mv : Int) (h : 0 ≤ mv) : thresholdsDivOk mv = true := by
+  unfold thresholdsDivOk
   by_cases h128 : mv ≥ 128
-  · rw [if_pos h128]; rfl
-  · have hw : wrap64 (mv + 1) = mv + 1 := wrap64_id _ (by omega) (by omega)
-    rw [if_neg h128, if_neg h]
-    have hpos : 0 < mv + 1 := by rw [hw] at h; omega
-    have hf : (256 : Int).tdiv (wrap64 (mv + 1)) ≠ 0 := by
-      rw [hw]
-      intro h0
+  · rw [if_pos h128]
+  · rw [if_neg h128]
+    have hw : wrap64 (mv + 1) = mv + 1 := wrap64_id _ (by omega) (by omega)
+    rw [hw]
+    have h0 : ¬ mv + 1 = 0 := by omega
+    rw [if_neg h0]
+    have hf : ¬ (256 : Int).tdiv (mv + 1) = 0 := by
+      intro h0'
       have h1 : (256 : Int).tdiv (mv + 1) = 256 / (mv + 1) := Int.tdiv_eq_ediv_of_nonneg (by omega)
-      rw [h1] at h0
+      rw [h1] at h0'
       have h2 := Int.mul_ediv_add_emod 256 (mv + 1)
-      have h3 := Int.emod_lt_of_pos 256 hpos
-      rw [h0] at h2
+      have h3 := Int.emod_lt_of_pos 256 (show (0 : Int) < mv + 1 by omega)
+      rw [h0'] at h2
       omega
     rw [if_neg hf]
-    rfl
 
+/-- 2·near+1 is odd, so it is not 0 modulo 2^64: the range division of ComputeCodingParameters is safe -/
+theorem codingParamsPanic_none (mv : Int) (near : Nat) (h : 0 ≤ mv) : codingParamsPanic mv near = none := by
+  unfold codingParamsPanic
+  have h1 : ¬ ((near : Int) > 0 ∧ wrap64 (2 * (near : Int) + 1) = 0) := by
+    intro ⟨_, hw⟩
+    unfold wrap64 at hw
+    omega
+  rw [if_neg h1, thresholdsDivOk_of_nonneg mv h]
+  rfl
+
+theorem maxValOf_nonneg (p : Nat) (h2 : 2 ≤ p) (h16 : p ≤ 16) : 0 ≤ maxValOf p := by
+  have : p = 2 ∨ p = 3 ∨ p = 4 ∨ p = 5 ∨ p = 6 ∨ p = 7 ∨ p = 8 ∨ p = 9 ∨ p = 10 ∨ p = 11 ∨ p = 12 ∨
+      p = 13 ∨ p = 14 ∨ p = 15 ∨ p = 16 := by omega
+  rcases this with h | h | h | h | h | h | h | h | h | h | h | h | h | h | h <;> subst h <;> decide
+
+theorem sofFields_p {data : Bytes} {p h w nc : Nat} (hs : sofFields data = some (p, h, w, nc)) : 2 ≤ p ∧ p ≤ 16 := by
+  unfold sofFields at hs
+  simp only at hs
+  repeat' split at hs
+  all_goals first
+    | (cases hs; done)
+    | (injection hs with hs; injection hs with h1 _; subst h1; omega)
+
+def Inv (st : St) : Prop := 0 ≤ st.maxVal
+
+theorem sof55_spec (st : St) (data : Bytes) :
+    (∀ st' s, sof55 st data ≠ .stop st' (.panic s)) ∧ (∀ st', sof55 st data = .cont st' → Inv st') := by
+  unfold sof55
+  cases hs : sofFields data with
+  | none => exact ⟨by intro st' s; simp, by intro st' h; cases h⟩
+  | some q =>
+    obtain ⟨p, h, w, nc⟩ := q
+    have hp := sofFields_p hs
+    have hn := maxValOf_nonneg p hp.1 hp.2
+    simp only
+    have hcp : codingParamsPanic (maxValOf p) 0 = none := codingParamsPanic_none (maxValOf p) 0 hn
+    have hcp' : codingParamsPanic (maxValOf p) (0 : Int) = none := by simpa using hcp
+    rw [hcp']
+    exact ⟨by intro st' s; simp, by intro st' h; injection h with h; subst h; exact hn⟩
+
+theorem codingParamsPanic_zero (mv : Int) (h : 0 ≤ mv) : codingParamsPanic mv (0 : Int) = none := by
+  have := codingParamsPanic_none mv 0 h; simpa using this
+
+theorem lse_mv_nonneg (st : St) (hi : Inv st) (x : Int) : 0 ≤ (if x ≤ 0 then st.maxVal else x) := by
+  split
+  · exact hi
+  · omega
+
+theorem lse_spec (st : St) (data : Bytes) (hi : Inv st) :
+    (∀ st' s, lse st data ≠ .stop st' (.panic s)) ∧ (∀ st', lse st data = .cont st' → Inv st') := by
+  unfold lse
+  split
+  · exact ⟨by intro st' s; simp, by intro st' h; cases h⟩
+  · split
+    · exact ⟨by intro st' s; simp, by intro st' h; injection h with h; subst h; exact hi⟩
+    · split
+      · exact ⟨by intro st' s; simp, by intro st' h; cases h⟩
+      · simp only
+        rw [codingParamsPanic_zero _ (lse_mv_nonneg st hi _)]
+        exact ⟨by intro st' s; simp, by intro st' h; injection h with h; subst h; exact lse_mv_nonneg st hi _⟩
+
+theorem step_more_inv {st st' : St} {bs r : Bytes} (hi : Inv st) (h : step st bs = .more st' r) : Inv st' := by
+  unfold step at h
+  split at h
+  · cases h
+  · try simp only at h
+    split at h
+    · obtain ⟨pl, u, hh⟩ := segTurn_more h
+      exact (sof55_spec _ pl).2 _ hh
+    · split at h
+      · obtain ⟨pl, u, hh⟩ := segTurn_more h
+        exact (lse_spec _ pl (by exact hi)).2 _ hh
+      · split at h
+        · obtain ⟨pl, u, hh⟩ := segTurn_more h
+          try simp only at hh
+          split at hh <;> cases hh
+        · split at h
+          · cases h
+          · split at h
+            · obtain ⟨pl, u, hh⟩ := segTurn_more h
+              try simp only at hh
+              injection hh with hh; subst hh; exact hi
+            · injection h with h1 _; subst h1; exact hi
+
+theorem step_done_total {st st' : St} {bs : Bytes} {o : Res} (hi : Inv st)
+    (h : step st bs = .done st' o) (s : Site) : o ≠ .panic s := by
+  unfold step at h
+  split at h
+  · injection h with _ h2; subst h2; simp
+  · try simp only at h
+    split at h
+    · rcases segTurn_done h with he | ⟨pl, u, hh⟩
+      · subst he; simp
+      · intro hc; subst hc; exact (sof55_spec _ pl).1 _ s hh
+    · split at h
+      · rcases segTurn_done h with he | ⟨pl, u, hh⟩
+        · subst he; simp
+        · intro hc; subst hc; exact (lse_spec _ pl (by exact hi)).1 _ s hh
+      · split at h
+        · rcases segTurn_done h with he | ⟨pl, u, hh⟩
+          · subst he; simp
+          · try simp only at hh
+            split at hh
+            · injection hh with _ h2; subst h2; simp
+            · injection hh with _ h2; subst h2; simp
+        · split at h
+          · injection h with _ h2; subst h2; simp
+          · split at h
+            · rcases segTurn_done h with he | ⟨pl, u, hh⟩
+              · subst he; simp
+              · cases hh
+            · cases h
+
+/-- FULL: `jpegls/lossless.Decode`, up to the start of the scan, has no panic outcome -/
+theorem header_total (bs : Bytes) (s : Site) : (header bs).2 ≠ .panic s := by
+  unfold header
+  split
+  · simp
+  · split
+    · simp
+    · exact run_inv step step_lt (fun st _ => Inv st) (fun p => p.2 ≠ .panic s)
+        (fun st bs st' r hi h => step_more_inv hi h)
+        (fun st bs st' o hi h => step_done_total hi h s) {} _ (by unfold Inv; decide)
+
+/-! near-lossless -/
+
+theorem nsof55_inv (st : St) (data : Bytes) (st' : St) (h : nsof55 st data = .cont st') : Inv st' := by
+  unfold nsof55 at h
+  cases hs : sofFields data with
+  | none => rw [hs] at h; cases h
+  | some q =>
+    obtain ⟨p, hh, w, nc⟩ := q
+    rw [hs] at h
+    simp only at h
+    injection h with h; subst h
+    have hp := sofFields_p hs
+    exact maxValOf_nonneg p hp.1 hp.2
+
+theorem nlse_inv (st : St) (data : Bytes) (hi : Inv st) (st' : St) (h : nlse st data = .cont st') : Inv st' := by
+  unfold nlse at h
+  split at h
+  · cases h
+  · split at h
+    · simp only at h
+      injection h with h; subst h
+      unfold Inv
+      simp only
+      split
+      · omega
+      · exact hi
+    · injection h with h; subst h; exact hi
+
+theorem nsos_total (st : St) (data : Bytes) (u : Nat) (hi : Inv st) (st' : St) (s : Site) :
+    nsos st data u ≠ .stop st' (.panic s) := by
+  unfold nsos
+  split
+  · simp only
+    rw [codingParamsPanic_none st.maxVal _ hi]
+    simp
+  · simp
+
+theorem nsos_not_cont (st : St) (data : Bytes) (u : Nat) (st' : St) : nsos st data u ≠ .cont st' := by
+  unfold nsos
+  split
+  · simp only; split <;> simp
+  · simp
+
+theorem nstep_more_inv {st st' : St} {bs r : Bytes} (hi : Inv st) (h : nstep st bs = .more st' r) : Inv st' := by
+  unfold nstep at h
+  split at h
+  · cases h
+  · try simp only at h
+    split at h
+    · obtain ⟨pl, u, hh⟩ := segTurn_more h
+      exact nsof55_inv _ pl _ hh
+    · split at h
+      · obtain ⟨pl, u, hh⟩ := segTurn_more h
+        exact nlse_inv _ pl (by exact hi) _ hh
+      · split at h
+        · obtain ⟨pl, u, hh⟩ := segTurn_more h
+          exact absurd hh (nsos_not_cont _ _ _ _)
+        · split at h
+          · cases h
+          · split at h
+            · obtain ⟨pl, u, hh⟩ := segTurn_more h
+              try simp only at hh
+              injection hh with hh; subst hh; exact hi
+            · injection h with h1 _; subst h1; exact hi
+
+theorem nstep_done_total {st st' : St} {bs : Bytes} {o : Res} (hi : Inv st)
+    (h : nstep st bs = .done st' o) (s : Site) : o ≠ .panic s := by
+  unfold nstep at h
+  split at h
+  · injection h with _ h2; subst h2; simp
+  · try simp only at h
+    split at h
+    · rcases segTurn_done h with he | ⟨pl, u, hh⟩
+      · subst he; simp
+      · intro hc; subst hc
+        unfold nsof55 at hh
+        repeat' split at hh
+        all_goals cases hh
+    · split at h
+      · rcases segTurn_done h with he | ⟨pl, u, hh⟩
+        · subst he; simp
+        · intro hc; subst hc
+          unfold nlse at hh
+          repeat' split at hh
+          all_goals cases hh
+      · split at h
+        · rcases segTurn_done h with he | ⟨pl, u, hh⟩
+          · subst he; simp
+          · intro hc; subst hc; exact nsos_total _ pl u (by exact hi) _ s hh
+        · split at h
+          · injection h with _ h2; subst h2; simp
+          · split at h
+            · rcases segTurn_done h with he | ⟨pl, u, hh⟩
+              · subst he; simp
+              · cases hh
+            · cases h
+
+/-- FULL: `jpegls/nearlossless.Decode`, up to the start of the scan, has no panic outcome -/
+theorem nheader_total (bs : Bytes) (s : Site) : (nheader bs).2 ≠ .panic s := by
+  unfold nheader
+  split
+  · simp
+  · split
+    · simp
+    · exact run_inv nstep nstep_lt (fun st _ => Inv st) (fun p => p.2 ≠ .panic s)
+        (fun st bs st' r hi h => nstep_more_inv hi h)
+        (fun st bs st' o hi h => nstep_done_total hi h s) {} _ (by unfold Inv; decide)
 end JlsH
 
-namespace J2kH
-
-/-- skipSegment after the two marker bytes: net progress of one "unknown marker" iteration ≥ 2,
-    also for the length fields 0 and 1 that move the offset backwards -/
-theorem skip_iteration_progress (a b : Nat) (rest r : Bytes) (h : skipSegment rest = some r) :
-    r.length + 2 ≤ (a :: b :: rest).length := by
-  have := skipSegment_le h
-  simp; omega
-
-end J2kH
+/-! ## evaluating the decoders on concrete byte strings (regression examples) -/
+namespace JM
+open PC
+theorem sv1Decode_eval {bs rest : Bytes} {x : Sv1 × Res} (n : Nat) (h1 : readMarker bs = some (0xFFD8, rest))
+    (h2 : runN sv1Step n {} rest = some x) : sv1Decode bs = x := by
+  unfold sv1Decode; rw [h1]; simp only [ne_eq, not_true_eq_false, if_false]
+  exact run_eq_of_runN _ _ n _ _ _ h2
+theorem jllDecode_eval {bs rest : Bytes} {x : Jll × Res} (n : Nat) (h1 : readMarker bs = some (0xFFD8, rest))
+    (h2 : runN jllStep n {} rest = some x) : jllDecode bs = x := by
+  unfold jllDecode; rw [h1]; simp only [ne_eq, not_true_eq_false, if_false]
+  exact run_eq_of_runN _ _ n _ _ _ h2
+theorem blDecode_eval {bs rest : Bytes} {x : Bl × Res} (n : Nat) (h1 : readMarker bs = some (0xFFD8, rest))
+    (h2 : runN blStep n {} rest = some x) : blDecode bs = x := by
+  unfold blDecode; rw [h1]; simp only [ne_eq, not_true_eq_false, if_false]
+  exact run_eq_of_runN _ _ n _ _ _ h2
+end JM
+namespace JlsH
+open PC JM
+theorem header_eval {bs rest : Bytes} {x : St × Res} (n : Nat) (h1 : readMarker bs = some (0xFFD8, rest))
+    (h2 : runN step n {} rest = some x) : header bs = x := by
+  unfold header; rw [h1]; simp only [ne_eq, not_true_eq_false, if_false]
+  exact run_eq_of_runN _ _ n _ _ _ h2
+theorem nheader_eval {bs rest : Bytes} {x : St × Res} (n : Nat) (h1 : readMarker bs = some (0xFFD8, rest))
+    (h2 : runN nstep n {} rest = some x) : nheader bs = x := by
+  unfold nheader; rw [h1]; simp only [ne_eq, not_true_eq_false, if_false]
+  exact run_eq_of_runN _ _ n _ _ _ h2
+end JlsH
